@@ -85,7 +85,7 @@ def peerName (p : Nat) : String := String.ofList [Char.ofNat (97 + p)]
 def showBD (b : BD) : String := if b.stated = b.id then s!"{b.id}" else s!"{b.id}~{b.stated}"
 
 def showEv : Ev → Option String
-  | .handed b => some s!"h{b.id}"
+  | .handed b _ => some s!"h{b.id}"
   | .exec b true => some s!"i{b.id}"
   | .exec _ false => none
   | .fin b => some s!"f{b.id}"
